@@ -105,6 +105,48 @@ def rule_lib_pitfall(ctx, prefix, fi):
               semantic=True)
 
 
+def rule_unbound(ctx, prefix, fi):
+    """U1: a name that is read but bound nowhere (local, enclosing, module, builtins) raises NameError when reached;
+    U2: `self.<a>` read in a method while no class of the hierarchy ever stores it raises AttributeError.  Whatever
+    operation reaches that statement fails for every input (the repository's own instance: `pool` in
+    Taster.taste_binary_data)."""
+    import ast
+    from .model import undefined_names, self_attrs_assigned, walk_no_nested, loc
+    m = fi.module
+    if any(isinstance(n, ast.ImportFrom) and any(a.name == "*" for a in n.names) for n in ast.walk(m.tree)):
+        return
+    seen = set()
+    for n in undefined_names(ctx.prog, fi):
+        if n.id in seen:
+            continue
+        seen.add(n.id)
+        ctx.finding(f"{prefix}.U1", fi.site, f"name `{n.id}` is read but bound nowhere (NameError when reached)",
+                    key=n.id, where=loc(fi, n), semantic=True)
+    ci = getattr(fi, "cls", None)
+    if ci is None:
+        return
+    mro = ctx.prog.mro(ci)
+    # every base must be a class of the analysed program (or object): an external base may define attributes
+    for c in mro:
+        for b in c.node.bases:
+            bn = ast.unparse(b)
+            if bn != "object" and not any(x.node.name == bn.split(".")[-1] for x in mro):
+                return
+    attrs = self_attrs_assigned(ctx.prog, ci)
+    if any(isinstance(x, ast.Call) and isinstance(x.func, ast.Name) and x.func.id in ("setattr", "vars")
+           for c in mro for x in ast.walk(c.node)) or any(
+            isinstance(x, ast.Attribute) and x.attr == "__dict__" for c in mro for x in ast.walk(c.node)):
+        return
+    first = fi.params[0] if fi.params else "self"
+    for n in walk_no_nested(fi.node):
+        if isinstance(n, ast.Attribute) and isinstance(n.ctx, ast.Load) and isinstance(n.value, ast.Name) and \
+                n.value.id == first == "self" and n.attr not in attrs and not n.attr.startswith("__") and \
+                n.attr not in seen:
+            seen.add(n.attr)
+            ctx.finding(f"{prefix}.U2", fi.site, f"attribute `self.{n.attr}` is read but never assigned in the class "
+                        f"hierarchy (AttributeError when reached)", key=f"self.{n.attr}", where=loc(fi, n), semantic=True)
+
+
 def sweep(ctx):
     if ctx.prop in NO_SWEEP:
         return
@@ -115,4 +157,5 @@ def sweep(ctx):
         loopstate.rule_loop_state(ctx, ctx.prop, fi)
         rule_level_table(ctx, ctx.prop, fi)
         rule_lib_pitfall(ctx, ctx.prop, fi)
-    ctx.note("generic_lints", {"functions": len(fns), "lints": ["LOOP-STATE", "LEVEL-TABLE", "LIB-PITFALL"]})
+        rule_unbound(ctx, ctx.prop, fi)
+    ctx.note("generic_lints", {"functions": len(fns), "lints": ["LOOP-STATE", "LEVEL-TABLE", "LIB-PITFALL", "U1", "U2"]})
